@@ -753,6 +753,7 @@ fn fmt_list(items: Vec<String>) -> String {
 }
 
 async fn foreign(a: &[String]) -> Vec<String> {
+    let live_sid: u64 = arg(a, 2).parse().unwrap_or(0);
     let kinds: Vec<String> = if arg(a, 1).is_empty() || arg(a, 1) == "-" {
         vec![]
     } else {
@@ -885,10 +886,22 @@ async fn foreign(a: &[String]) -> Vec<String> {
     // the raw peer; `watched` = (kind, send side) of every foreign stream
     let mut watched: Vec<(String, quinn::SendStream)> = vec![];
     let raw_side = async {
-        let client = RawClient::session(port, &RawOpts::default()).await?;
+        // the live session's id: 0, or (third argument) the id of a later client bidi stream, in
+        // which case the earlier bidi streams are opened and never used
+        let mut client = RawClient::connect(port, &RawOpts::default()).await?;
+        client.open_control(&wire::std_settings_frame()).await?;
+        for _ in 0..live_sid / 4 {
+            let (s, r) = client.open_bi().await?;
+            client.keep_send.push(s);
+            client.keep_recv.push(r);
+        }
+        client.request(&wire::std_request_frame()).await?;
         let mut keep: Keep = vec![];
         for (i, kind) in kinds.iter().enumerate() {
             let (what, sid): (&str, u64) = match kind.as_str() {
+                "uni0" => ("uni", 0),
+                "bi0" => ("bi", 0),
+                "dgram0" => ("dgram", 0),
                 "uni8" => ("uni", 8),
                 "bi8" => ("bi", 8),
                 "dgram8" => ("dgram", 8),
@@ -898,7 +911,7 @@ async fn foreign(a: &[String]) -> Vec<String> {
                 other => return Err(format!("bad_kind:{other}")),
             };
             for (session, payload, is_foreign) in
-                [(sid, foreign_payload(i), true), (0u64, live_payload(i), false)]
+                [(sid, foreign_payload(i), true), (live_sid, live_payload(i), false)]
             {
                 match what {
                     "dgram" => {
@@ -1181,6 +1194,12 @@ fn gen_c17(thorough: bool, rng: &mut Rng, emit: &mut dyn FnMut(&str, Vec<String>
     // the full list
     for rt in RTS {
         emit("foreign", vec![s(rt), all.join(",")]);
+    }
+    // a live session whose id is not 0 (12): session 0 itself is then foreign
+    for kinds in ["uni0", "bi0", "dgram0", "uni0,bi8,dgram4", "dgram0,uni4,bi0", "uni8,dgram8,bi4"] {
+        for rt in RTS {
+            emit("foreign", vec![s(rt), s(kinds), s(12)]);
+        }
     }
     if thorough {
         // longer lists with repetitions
